@@ -16,6 +16,7 @@ RULE = ("order-sensitive-if-miscompiled scripts (union first-occurrence with ove
         "Bucket = (script family, threads, db mode, memory limit, rows class); one evaluation = one configuration compared.")
 ASSUMPTIONS = ["runs that fail with an out-of-memory error under the reduced memory limit are 'did not complete' (the statement allows that)"]
 FLOORS = {"quick": (250, 40), "thorough": (600, 60)}
+SHARD_TIMEOUT = {"quick": 1200, "thorough": 7200}      # large generated inputs: one script under the whole configuration grid can take minutes on a loaded machine
 NSH = 16
 
 COMPS = [("Id_1", "Integer", "Identifier", False), ("Id_2", "String", "Identifier", False),
@@ -219,12 +220,20 @@ def run_shard(spec, emit):
     work = os.path.join(eng.SCRATCH, "c15data")
     os.makedirs(work, exist_ok=True)
     st = eng.structures(eng.mkds("DS_1", COMPS), eng.mkds("DS_2", COMPS))
-    ordered = SCRIPTS[4:] + SCRIPTS[:4]     # the first pass over the shards covers union3 .. check-datapoint; the four plain set operators come second
+    # the first pass over the 16 shards takes one script per family of SQL shape; the remaining ones come second, budget permitting
+    first = ["hierarchy-all", "hierarchy-partial", "check-hierarchy", "check-datapoint", "union", "union3", "filter-multi", "sum-group", "median-group",
+             "inner-join", "full-join", "running-sum", "lag-rank", "first-last", "symdiff", "exists_in"]
+    by_name = dict(SCRIPTS)
+    ordered = [(f, by_name[f]) for f in first] + [x for x in SCRIPTS if x[0] not in first]
     mine = [s for i, s in enumerate(ordered) if i % spec["nshards"] == spec["shard"]]
     if tier == "thorough":
         mine = mine + [SCRIPTS[(spec["shard"] + 7) % len(SCRIPTS)]]
+    # every script of the shard first on small in-memory DataFrames with sorted, fully overlapping keys (operand pipelines of
+    # equal size finish in either order), repeated: cheap, and schedule-dependent outcomes show up here first
+    for fam, script in mine:
+        small_frames(fam, script, st, emit)
     for j, (fam, script) in enumerate(mine):
-        if not bud.ok() and tier != "quick":     # quick: at most two scripts per shard, both always run
+        if not bud.ok():
             break
         fmt = "parquet" if (spec["shard"] + j) % 2 else "csv"
         # the final de-duplication of hierarchy(all) only spans several morsels from ~50 000 groups on
@@ -233,9 +242,6 @@ def run_shard(spec, emit):
         kw = {"script": script, "data_structures": st, "datapoints": dps, "return_only_persistent": False}
         compare_configs(f"{script} on {nn} rows ({fmt})", f"gen:{fam}", kw, f"rows=1e{len(str(nn)) - 1}", "256MB" if nn >= 100_000 else "64MB", emit,
                         {"gen": [fam, script, nn, fmt, spec["seed"] * 101 + spec["shard"]]})
-        # the same script on small in-memory DataFrames with sorted, fully overlapping keys (operand pipelines of equal size
-        # finish in either order), repeated: cheap, and the schedule-dependent outcomes show up here first
-        small_frames(fam, script, st, emit)
     shutil.rmtree(work, ignore_errors=True)
     for c in rider.corpus_slice(spec, quick_fraction=40, tag="C15")[: (3 if tier == "quick" else 12)]:
         if not bud.ok():
